@@ -27,19 +27,39 @@ type Result struct {
 
 type solverSpec struct {
 	name string
-	argv func(timeout time.Duration) []string
+	argv func(timeout time.Duration, rlimit int64) []string
 }
 
+// The z3 solvers are given a deterministic resource limit (rlimit) in addition
+// to a generous wall-clock limit, so that whether an obligation discharges does
+// not depend on how loaded the machine is.
 var solvers = []solverSpec{
-	{"z3-new", func(t time.Duration) []string {
-		return []string{"z3-new", "-in", "-smt2", "-T:" + secs(t)}
+	{"z3-new", func(t time.Duration, rl int64) []string {
+		a := []string{"z3-new", "-in", "-smt2", "-T:" + secs(t)}
+		if rl > 0 {
+			a = append(a, "rlimit="+itoa64(rl))
+		}
+		return a
 	}},
-	{"z3", func(t time.Duration) []string {
-		return []string{"z3", "-in", "-smt2", "-T:" + secs(t)}
+	{"z3", func(t time.Duration, rl int64) []string {
+		a := []string{"z3", "-in", "-smt2", "-T:" + secs(t)}
+		if rl > 0 {
+			a = append(a, "rlimit="+itoa64(rl))
+		}
+		return a
 	}},
-	{"cvc5", func(t time.Duration) []string {
-		return []string{"cvc5", "--lang=smt2", "--produce-models", "--tlimit=" + msecs(t)}
+	{"cvc5", func(t time.Duration, rl int64) []string {
+		a := []string{"cvc5", "--lang=smt2", "--produce-models", "--tlimit=" + msecs(t)}
+		if rl > 0 {
+			a = append(a, "--rlimit="+itoa64(rl*2))
+		}
+		return a
 	}},
+}
+
+func itoa64(n int64) string {
+	b, _ := json.Marshal(n)
+	return string(b)
 }
 
 func secs(t time.Duration) string {
@@ -61,6 +81,8 @@ type Solver struct {
 	CacheDir string // "" disables the cache
 	Confirm  bool   // thorough: confirm unsat by a second solver where it answers
 	Single   bool   // only the first solver (Houdini candidates)
+	RLimit   int64  // deterministic resource limit per solver run (0 = none)
+	CandRLimit int64 // resource limit for Houdini candidate queries
 	mu       sync.Mutex
 	Stats    map[string]int
 }
@@ -77,8 +99,8 @@ func (s *Solver) cachePath(q string) string {
 	return filepath.Join(s.CacheDir, hex.EncodeToString(h[:])+".json")
 }
 
-func runOne(ctx context.Context, sp solverSpec, q string, timeout time.Duration) (status string, out string, dur time.Duration) {
-	argv := sp.argv(timeout)
+func runOne(ctx context.Context, sp solverSpec, q string, timeout time.Duration, rlimit int64) (status string, out string, dur time.Duration) {
+	argv := sp.argv(timeout, rlimit)
 	cctx, cancel := context.WithTimeout(ctx, timeout+2*time.Second)
 	defer cancel()
 	cmd := exec.CommandContext(cctx, argv[0], argv[1:]...)
@@ -140,7 +162,7 @@ func (s *Solver) Check(q string) Result {
 
 // CheckBudget is Check with a different per-query budget (no cache write for unknown).
 func (s *Solver) CheckBudget(q string, budget time.Duration) Result {
-	c := &Solver{Timeout: budget, CacheDir: s.CacheDir, Stats: map[string]int{}, Single: true}
+	c := &Solver{Timeout: budget, CacheDir: s.CacheDir, Stats: map[string]int{}, Single: true, RLimit: s.CandRLimit}
 	return c.Check(q)
 }
 
@@ -148,7 +170,7 @@ func (s *Solver) CheckBudget(q string, budget time.Duration) Result {
 // (used for vacuity canaries, where only "unsat" matters).
 func (s *Solver) CheckQuick(q string, budget time.Duration) Result {
 	t0 := time.Now()
-	st, out, _ := runOne(context.Background(), solvers[0], q, budget)
+	st, out, _ := runOne(context.Background(), solvers[0], q, budget, 0)
 	r := Result{Status: st, Solver: solvers[0].name, TimeS: time.Since(t0).Seconds()}
 	if st == "sat" {
 		r.Values = parseValues(out)
@@ -161,12 +183,9 @@ func (s *Solver) CheckQuick(q string, budget time.Duration) Result {
 func (s *Solver) check(q string) Result {
 	t0 := time.Now()
 	outputs := map[string]string{}
-	// stage 1: z3-new alone with a short budget
-	t1 := 3 * time.Second
-	if s.Timeout < t1 {
-		t1 = s.Timeout
-	}
-	st, out, _ := runOne(context.Background(), solvers[0], q, t1)
+	// stage 1: z3-new alone with a fraction of the resource budget
+	t1 := s.Timeout
+	st, out, _ := runOne(context.Background(), solvers[0], q, t1, s.RLimit/4)
 	if st == "sat" || st == "unsat" {
 		r := Result{Status: st, Solver: solvers[0].name, TimeS: time.Since(t0).Seconds()}
 		if st == "sat" {
@@ -191,7 +210,7 @@ func (s *Solver) check(q string) Result {
 	for _, sp := range solvers {
 		sp := sp
 		go func() {
-			st, out, _ := runOne(ctx, sp, q, s.Timeout)
+			st, out, _ := runOne(ctx, sp, q, s.Timeout, s.RLimit)
 			ch <- ans{sp.name, st, out}
 		}()
 	}
@@ -228,7 +247,7 @@ func (s *Solver) confirm(q string, r *Result) {
 		if sp.name == r.Solver {
 			continue
 		}
-		st, _, _ := runOne(context.Background(), sp, q, s.Timeout)
+		st, _, _ := runOne(context.Background(), sp, q, s.Timeout, s.RLimit)
 		if st == "unsat" {
 			r.Solver += "+" + sp.name
 			return
